@@ -84,7 +84,7 @@ theorem fitInit_perm (family : Family) (x y : List α) (weights offsets : Option
   have hm' : isMatrix (permRows σ x p) n = some p := Cv.C05L.isMatrix_of_len (permRows_length σ x p) hn
   unfold fitInit
   simp only [permVec_length, hy, hm, hm', isDesign_perm σ x p hn hx, resolveWeights_perm σ weights hw,
-    Option.bind_eq_bind, Option.bind_some, mean_perm σ y hy]
+    Option.bind_eq_bind, Option.bind_some, initialIntercept_perm σ family y hy]
   cases isDesign x n with
   | none => rfl
   | some d =>
